@@ -15,9 +15,10 @@ LEVEL = "exploration"
 RULE = ("(a) Hypothesis rule-based state machine over one long-lived interpreter: up to 50 steps drawn from assemble(valid program), "
         "assemble(program with non-critical errors), assemble(program ending in a critical error), assemble(whose report handler "
         "raises on its k-th call - an assembly that crashes half way), run the CLI entry point; programs reuse the probe set's file "
-        "names and include paths on purpose. After every step a probe set of 18 programs (forward definition chains of four lengths, lazy evaluation, link-base solving, repeat, headers shared unchanged with history programs and full of once-per-token diagnostics, "
+        "names and include paths on purpose. After every step a probe set of 19 programs (forward definition chains of four lengths, lazy evaluation, link-base solving, repeat, headers shared unchanged with history programs and full of once-per-token diagnostics, "
         "include with .once, .end, errors with positions, warnings, unencodable literal, cross-file exports, CLI run with files) is "
-        "re-assembled and every result (outcome class, base, bytes, output directives, diagnostics by severity, identifier, file, start, "
+        "re-assembled (plus, when a step changed the interpreter's recursion limit, a generated '.word 1+1+...+1' whose outcome depends on "
+        "it) and every result (outcome class, base, bytes, output directives, diagnostics by severity, identifier, file, start, "
         "end; for the CLI probe exit status, stdout and files written) must equal the result a fresh process gave at the start of the "
         "run. (b) the probe set and 200 generated programs are assembled in fresh subprocesses under PYTHONHASHSEED 0,1,2,3,random "
         "and must agree. Non-trivial: history with >= 1 failing and >= 1 crashing or critically aborted assembly before a probe; "
@@ -59,6 +60,7 @@ PROBES = [
     # identity or allocation order shows up as an occasional deviation on some length)
     (f"chain-{n}", {"p.mac": "\t.word s0\n" + "".join(f"s{i} = s{i + 1} + 1\n" for i in range(n)) + f"s{n} = end + 2\n\tnop\nend:\n"}, ["p.mac"]) for n in (7, 10, 13, 16)
 ] + [
+    ("register-as-value", {"p.mac": "\t.word sp\n\tmov #r1, r0\nx = pc\n\t.word x\n"}, ["p.mac"]),
     ("shared-header", {"p.mac": "\t.include \"lib/hdr.mac\"\n\t.word lines, 19\n\t.ascii <400>\n1:\tbr 1 + 2\n\tmov #'€, r0\n", "lib/hdr.mac": HDR}, ["p.mac"]),
     ("shared-header-warnings", {"p.mac": "\t.include \"lib/hdr2.mac\"\n3:\tbr 3 + 2\n\t.word 'a'\n", "lib/hdr2.mac": "4:\tbr 4 + 2\n\t.word 'b', \"cd\"\n\tclr @r0\n"}, ["p.mac"]),
 ]
@@ -125,8 +127,11 @@ def run_cli_probe():
 
 
 def all_probes():
+    lim0 = sys.getrecursionlimit()
     res = {p[0]: run_probe(p) for p in PROBES}
     res["cli"] = run_cli_probe()
+    if sys.getrecursionlimit() != lim0 and "_limit_change" in globals():
+        _limit_change[0] = (lim0, sys.getrecursionlimit())     # the probes are assemblies too
     return res
 
 
@@ -207,8 +212,48 @@ class Boom(Exception):
     pass
 
 
+_limit_change = [None]
+
+
 def do_step(step):
-    """execute one history step in this interpreter; never raises"""
+    """execute one history step; notes a change of the interpreter's recursion limit made by the step"""
+    lim0 = sys.getrecursionlimit()
+    try:
+        _do_step(step)
+    finally:
+        lim1 = sys.getrecursionlimit()
+        if lim1 != lim0:
+            _limit_change[0] = (lim0, lim1)
+
+
+def limit_witness():
+    """if an earlier assembly changed the recursion limit of the interpreter: a source text whose outcome depends on it
+    ('.word 1 + 1 + ... + 1' needs about one stack frame per term) -> None or a diff triple"""
+    if not _limit_change[0]:
+        return None
+    import inspect
+    lo, hi = sorted(_limit_change[0])
+    depth = len(inspect.stack(0))
+    n = lo - depth + 300
+    if n < 50 or n + depth + 300 > hi:
+        return None
+    text = "\t.word " + " + ".join(["1"] * n) + "\n"
+    cur = sys.getrecursionlimit()
+    res = {}
+    try:
+        for lim in (lo, hi):
+            sys.setrecursionlimit(lim)
+            out = driver.assemble([("/vf/deep.mac", text)], repair=False)
+            res[lim] = out.kind + (":" + out.exc[0] if out.exc else "")
+    finally:
+        sys.setrecursionlimit(cur)
+    if res[lo] != res[hi]:
+        return ("interpreter-state", "recursion-limit", f"an earlier assembly changed the interpreter's recursion limit from {_limit_change[0][0]} to {_limit_change[0][1]}: "
+                f"'.word 1 + 1 + ... + 1' with {n} terms ends with {res[_limit_change[0][0]]} before it and with {res[_limit_change[0][1]]} after it")
+    return None
+
+
+def _do_step(step):
     kind, idx, k = step
     pool = {"valid": VALID, "invalid": INVALID, "critical": CRITICAL, "raising": RAISING, "cli": VALID + INVALID}[kind]
     tree = pool[idx % len(pool)]
@@ -275,6 +320,7 @@ def make_machine(baseline):
             super().__init__()
             self.history = []
             clean_outputs()
+            _limit_change[0] = None
             driver.reset_state()      # each machine starts from a clean interpreter state (pdpy11 itself stays loaded)
             p = driver.pd()
             # class-level state a broken tree may have introduced cannot be reset generically: a fresh process per shard bounds it
@@ -316,7 +362,7 @@ def make_machine(baseline):
             _stats["probe_runs"] += 1
             _stats["steps"] = _stats["steps"] + (1 if self.history else 0)
             now = all_probes()
-            d = diff(baseline, now)
+            d = diff(baseline, now) or limit_witness()
             if d:
                 _last["history"] = list(self.history)
                 _last["diff"] = d
@@ -327,7 +373,8 @@ def make_machine(baseline):
 def shards(tier):
     specs = [{"part": "hashseeds", "seeds": ["0", "1", "2", "3", "random"] if tier == "quick" else [str(i) for i in range(24)] + ["random"],
               "programs": 60 if tier == "quick" else 200}]
-    k = 15
+    specs.append({"part": "enumerated"})
+    k = 14
     n = 150 if tier == "quick" else 3000
     for i in range(k):
         specs.append({"part": "machine", "i": i, "machines": max(n // k, 4), "steps": 50 if i % 3 == 0 else 12})
@@ -360,6 +407,26 @@ def run_shard(spec, ctx):
                 if x != y:
                     ctx.fail("hashseed:generated-program", f"PYTHONHASHSEED={spec['seeds'][0]} vs {hs}: generated program {i} differs: {json.dumps(x)[:300]} vs {json.dumps(y)[:300]}",
                              {"kind": "hashseed-prog", "prog": progs[i], "a": spec["seeds"][0], "b": hs})
+                    break
+        return
+    if spec["part"] == "enumerated":
+        # every program of every pool once, in pool order and in reverse, outside the property-testing library (which manages the
+        # interpreter's stack limit itself): probes and the recursion-limit witness after every step
+        baseline = fresh_each()
+        seq = [[kind, i, k_] for kind, pool in (("valid", VALID), ("invalid", INVALID), ("critical", CRITICAL), ("raising", RAISING), ("cli", VALID + INVALID))
+               for i in range(len(pool)) for k_ in ((0, 1, 2) if kind == "raising" else (0,))]
+        for order in (seq, seq[::-1]):
+            driver.reset_state()
+            clean_outputs()
+            _limit_change[0] = None
+            hist = []
+            for step in order:
+                hist.append(step)
+                do_step(step)
+                d = diff(baseline, all_probes()) or limit_witness()
+                ctx.case(repr(hist), len(hist) > 3, ["enumerated-history"], sample={"history": hist[-3:]} if len(hist) == 5 else None, evaluations=len(PROBES) + 1)
+                if d:
+                    ctx.fail(f"history:{d[0]}:{d[1]}", d[2] + f"\nhistory: {hist}", {"kind": "history", "steps": list(hist)})
                     break
         return
     baseline = fresh_each()
@@ -414,9 +481,10 @@ def replay(case):
         baseline = fresh_each()
         driver.reset_state()
         clean_outputs()
+        _limit_change[0] = None
         for s in case["steps"]:
             do_step(s)
-        d = diff(baseline, all_probes())
+        d = diff(baseline, all_probes()) or limit_witness()
         for _ in range(30 if case.get("sporadic") and not d else 0):
             # a sporadic deviation: repeat the probe set, any deviation counts
             d = diff(baseline, all_probes())
